@@ -24,6 +24,7 @@ import (
 	"bytes"
 	"errors"
 	"fmt"
+	"unicode/utf8"
 )
 
 var errUnmarshalNilLevel = errors.New("can't unmarshal a nil *Level")
@@ -170,6 +171,13 @@ func (l Level) MarshalText() ([]byte, error) {
 func (l *Level) UnmarshalText(text []byte) error {
 	if l == nil {
 		return errUnmarshalNilLevel
+	}
+	for _, c := range text {
+		if c >= utf8.RuneSelf {
+			// Level names are ASCII; don't let Unicode case mapping turn
+			// other text (for example "\u0130nfo") into one of them.
+			return fmt.Errorf("unrecognized level: %q", text)
+		}
 	}
 	if !l.unmarshalText(text) && !l.unmarshalText(bytes.ToLower(text)) {
 		return fmt.Errorf("unrecognized level: %q", text)
